@@ -74,6 +74,27 @@ def glue_case(t, r):
         f = d.copy()
         f.move_object(d.objects[-1], 0)
         ok = ok and ((concepts.Context(*f) == c) == (f.objects == d.objects))
+        g = d.copy()
+        g.move_property(d.properties[-1], 0)
+        cg = concepts.Context(*g)
+        ok = ok and ((cg == c) == (g.properties == d.properties)) and ((cg != c) == (g.properties != d.properties))
+        if len(props) >= 2:
+            g2 = d.copy()
+            g2.rename_property(d.properties[0], 'renamed property')
+            ok = ok and concepts.Context(*g2) != c and not (concepts.Context(*g2) == c)
+        # shape and fill ratio follow edits made after they were read
+        h = d.copy()
+        ok = ok and tuple(h.shape) == (len(objs), len(props)) and same_ratio(h.fill_ratio)
+        h.add_object('a new object', [d.properties[0]])
+        ok = ok and tuple(h.shape) == (len(objs) + 1, len(props)) and h.shape.size == (len(objs) + 1) * len(props)
+        ok = ok and h.fill_ratio == fractions.Fraction(n_true + 1, (len(objs) + 1) * len(props))
+        ch = concepts.Context(*h)
+        ok = ok and tuple(ch.shape) == tuple(h.shape) and ch.fill_ratio == h.fill_ratio and ch.crc32() == h.crc32() and ch.tostring() == h.tostring()
+        h.add_property('a new property')
+        ok = ok and tuple(h.shape) == (len(objs) + 1, len(props) + 1) and h.fill_ratio == fractions.Fraction(n_true + 1, (len(objs) + 1) * (len(props) + 1))
+        h.remove_object('a new object')
+        h.remove_property('a new property')
+        ok = ok and tuple(h.shape) == tuple(d.shape) and same_ratio(h.fill_ratio) and h == d and h.crc32() == d.crc32() and h.tostring() == text
     except Exception as ex:  # noqa: BLE001
         ok = False
     case = mk([dm.Op('DNew', objs, props, bools)], 0, False)
